@@ -35,11 +35,16 @@
 #include <xmlsec/parser.h>
 #include <xmlsec/crypto.h>
 #include <xmlsec/app.h>
+#include <xmlsec/openssl/crypto.h>
+#include <xmlsec/openssl/evp.h>
+#include <openssl/evp.h>
 
 #define MAX_IDATTR 8
 
 static const char *opt_output, *opt_node_id, *opt_node_xpath, *opt_xml_data;
-static const char *opt_session_key, *opt_enabled_uris;
+static const char *opt_session_key, *opt_enabled_uris, *opt_enabled_key_data;
+static const char *log_key_used = "";   /* verify: "given" = the key loaded from the command line verified, "keyinfo" = another one (from the document) */
+static xmlSecKeyPtr given_key = NULL;
 static const char *opt_privkey_pem, *opt_pubcert_pem, *opt_pubcert_der, *opt_pubkey_pem;
 static const char *idattr_name[MAX_IDATTR], *idattr_node[MAX_IDATTR];
 static int n_idattr;
@@ -112,6 +117,7 @@ static void write_log(int argc, char **argv, const char *cmd, int rc) {
     for (i = 1; i < argc; i++) { if (i > 1) sb_puts(&b, ","); sb_json_str(&b, argv[i]); }
     sb_puts(&b, "],\"rc\":"); snprintf(num, sizeof num, "%d", rc); sb_puts(&b, num);
     sb_puts(&b, ",\"verdict\":"); sb_json_str(&b, log_verdict);
+    sb_puts(&b, ",\"key_used\":"); sb_json_str(&b, log_key_used);
     sb_puts(&b, ",\"fault\":"); sb_json_str(&b, log_fault);
     sb_puts(&b, ",\"fault_index\":"); snprintf(num, sizeof num, "%d", log_fault_index); sb_puts(&b, num);
     sb_puts(&b, ",\"node_id\":"); sb_json_str(&b, opt_node_id ? opt_node_id : "");
@@ -317,6 +323,7 @@ static xmlSecKeysMngrPtr make_mngr(void) {
     if (xmlSecCryptoAppDefaultKeysMngrAdoptKey(mngr, key) < 0) {
         xmlSecKeyDestroy(key); xmlSecKeysMngrDestroy(mngr); return NULL;
     }
+    given_key = key;    /* owned by the manager, which lives until the end of main */
     return mngr;
 }
 
@@ -335,6 +342,36 @@ static int parse_uri_types(const char *s, xmlSecTransformUriType *out) {
     return 0;
 }
 
+/* --enabled-key-data <list>: as the xmlsec1 front end does it - the named key data classes are the only ones read from KeyInfo */
+static int apply_enabled_key_data(xmlSecKeyInfoCtxPtr kctx) {
+    char *dup, *tok, *save = NULL;
+    if (opt_enabled_key_data == NULL) return 0;
+    dup = strdup(opt_enabled_key_data);
+    for (tok = strtok_r(dup, ",", &save); tok; tok = strtok_r(NULL, ",", &save)) {
+        xmlSecKeyDataId id = xmlSecKeyDataIdListFindByName(xmlSecKeyDataIdsGet(), BAD_CAST tok, xmlSecKeyDataUsageAny);
+        if (id == xmlSecKeyDataIdUnknown) {
+            fprintf(stderr, "Error: key data \"%s\" is unknown\n", tok);
+            free(dup); return -1;
+        }
+        if (xmlSecPtrListAdd(&(kctx->enabledKeyData), (void *)id) < 0) { free(dup); return -1; }
+    }
+    free(dup);
+    return 0;
+}
+
+static int same_public_key(xmlSecKeyPtr a, xmlSecKeyPtr b) {
+    xmlSecKeyDataPtr da, db;
+    EVP_PKEY *ea, *eb;
+    if (a == NULL || b == NULL) return 0;
+    da = xmlSecKeyGetValue(a); db = xmlSecKeyGetValue(b);
+    if (da == NULL || db == NULL) return 0;
+    if (!xmlSecKeyDataCheckId(da, xmlSecOpenSSLKeyDataRsaId) && !xmlSecKeyDataCheckId(da, xmlSecOpenSSLKeyDataDsaId)) return 0;
+    if (!xmlSecKeyDataCheckId(db, xmlSecOpenSSLKeyDataRsaId) && !xmlSecKeyDataCheckId(db, xmlSecOpenSSLKeyDataDsaId)) return 0;
+    ea = xmlSecOpenSSLEvpKeyDataGetEvp(da); eb = xmlSecOpenSSLEvpKeyDataGetEvp(db);
+    if (ea == NULL || eb == NULL) return 0;
+    return EVP_PKEY_eq(ea, eb) == 1;
+}
+
 static int do_verify(xmlSecKeysMngrPtr mngr) {
     xmlNodePtr start = NULL;
     xmlDocPtr doc = load_doc(input_file, xmlSecNodeSignature, xmlSecDSigNs, &start);
@@ -348,6 +385,7 @@ static int do_verify(xmlSecKeysMngrPtr mngr) {
         fprintf(stderr, "Error: failed to parse \"enabled-reference-uris\"\n");
         xmlSecDSigCtxFinalize(&ctx); goto out;
     }
+    if (apply_enabled_key_data(&ctx.keyInfoReadCtx) < 0) { xmlSecDSigCtxFinalize(&ctx); goto out; }
     if (xmlSecDSigCtxVerify(&ctx, start) < 0) {
         fprintf(stderr, "Error: signature failed \n");
         fprintf(stderr, "ERROR\n");
@@ -355,6 +393,7 @@ static int do_verify(xmlSecKeysMngrPtr mngr) {
     } else if (ctx.status == xmlSecDSigStatusSucceeded) {
         fprintf(stderr, "OK\n");
         log_verdict = "OK";
+        log_key_used = same_public_key(ctx.signKey, given_key) ? "given" : "keyinfo";
         rc = 0;
     } else {
         fprintf(stderr, "FAIL\n");
@@ -504,6 +543,7 @@ int main(int argc, char **argv) {
         else if (!strcmp(a, "--xml-data")) { NEED(); opt_xml_data = argv[++i]; }
         else if (!strcmp(a, "--session-key")) { NEED(); opt_session_key = argv[++i]; }
         else if (!strcmp(a, "--enabled-reference-uris")) { NEED(); opt_enabled_uris = argv[++i]; }
+        else if (!strcmp(a, "--enabled-key-data")) { NEED(); opt_enabled_key_data = argv[++i]; }
         else if (!strcmp(a, "--privkey-pem")) { NEED(); opt_privkey_pem = argv[++i]; }
         else if (!strcmp(a, "--pubkey-pem")) { NEED(); opt_pubkey_pem = argv[++i]; }
         else if (!strcmp(a, "--pubkey-cert-pem")) { NEED(); opt_pubcert_pem = argv[++i]; }
